@@ -8,7 +8,7 @@ n, ids = sys.argv[1], sys.argv[2:]
 root = os.path.dirname(os.path.dirname(os.path.abspath(__file__)))
 checkout = f"/var/tmp/verif-in{n}"
 wt = f"/var/tmp/repo-intake-{n}"
-env = dict(os.environ, WT=wt, BASE="main", GOFLAGS="-mod=mod", GOPROXY="off")
+env = dict(os.environ, WT=wt, BASE=os.environ.get("BASE", "main"), GOFLAGS="-mod=mod", GOPROXY="off")
 head = subprocess.run(["git", "-C", checkout, "rev-parse", "--short", "HEAD"], stdout=subprocess.PIPE, text=True).stdout.strip()
 repo = subprocess.run(["git", "-C", "/repo", "rev-parse", "--short", "HEAD"], stdout=subprocess.PIPE, text=True).stdout.strip()
 for pid in ids:
